@@ -100,9 +100,20 @@ type c05Raw struct {
 	FixSum bool   `json:"recompute_checksum"`
 	Ones   int    `json:"leading_ones"`
 	Why    string `json:"what"`
+	// StrHex, when set, is the string itself (hex of its bytes): characters are substituted at the
+	// string level, including bytes outside the Base58 alphabet
+	StrHex string `json:"string_hex,omitempty"`
 }
 
 func (cas c05Raw) build() (string, []byte) {
+	if cas.StrHex != "" {
+		s := string(mc.UnHex(cas.StrHex))
+		b, good := ref.B58Decode(s)
+		if !good {
+			b = nil
+		}
+		return s, b
+	}
 	b := mc.UnHex(cas.Hex)
 	if cas.FixSum && len(b) >= 4 {
 		ck := ref.DoubleSHA256(b[:len(b)-4])
@@ -254,6 +265,18 @@ func runC05(c *mc.Ctx) {
 	for _, p := range bases {
 		f := full(p)
 		raws = append(raws, c05Raw{Hex: mc.Hex(f), Why: "unmodified"})
+		// every byte value at every position of the string itself
+		str := ref.B58Encode(f)
+		for pos := 0; pos < len(str); pos++ {
+			for v := 0; v < 256; v++ {
+				if byte(v) == str[pos] {
+					continue
+				}
+				m := []byte(str)
+				m[pos] = byte(v)
+				raws = append(raws, c05Raw{StrHex: mc.Hex(m), Why: "one character of the string replaced by another byte value"})
+			}
+		}
 		// (a) no checksum fix: single-bit flips, single-byte substitutions
 		for bit := 0; bit < 82*8; bit++ {
 			m := append([]byte{}, f...)
